@@ -74,6 +74,11 @@ struct xcmc_session *xcmc_open(pid_t creator_pid, int64_t sock_ref)
 			sizeof(path)) < 0)
 	return NULL;
 
+    if (strlen(path) >= UNIX_PATH_MAX) {
+	errno = ENAMETOOLONG;
+	return NULL;
+    }
+
     int fd;
     
     if ((fd = socket(AF_UNIX, SOCK_SEQPACKET, 0)) < 0)
